@@ -164,12 +164,24 @@ func sshLabGet() *sshLab {
 }
 
 func runRelaySSH(user, pass string, reqs []sshReqRec, toBackend, fromBackend []byte) {
+	runRelaySSHTries(user, nil, pass, reqs, toBackend, fromBackend)
+}
+
+// wrong: passwords presented (and rejected by the backend) on the same connection before `pass`
+func runRelaySSHTries(user string, wrong []string, pass string, reqs []sshReqRec, toBackend, fromBackend []byte) {
 	l := sshLabGet()
 	var rs []string
 	for _, r := range reqs {
 		rs = append(rs, r.typ+":"+hx(r.payload))
 	}
 	line := fmt.Sprintf("@relay ssh %s:%s %s | %s | %s", hx([]byte(user)), hx([]byte(pass)), strings.Join(rs, " "), hx(toBackend), hx(fromBackend))
+	if len(wrong) > 0 {
+		var ws []string
+		for _, w := range wrong {
+			ws = append(ws, hx([]byte(w)))
+		}
+		line += " | " + strings.Join(ws, ",")
+	}
 	verdict := "ok"
 	viol := func(sig, d string) {
 		if verdict == "ok" {
@@ -183,7 +195,16 @@ func runRelaySSH(user, pass string, reqs []sshReqRec, toBackend, fromBackend []b
 	done := make(chan struct{})
 	go func() { defer close(done); defer func() { recover() }(); l.hc.VerifHandle(pc) }()
 	cli.SetDeadline(time.Now().Add(15 * time.Second))
-	cc := &ssh.ClientConfig{User: user, Auth: []ssh.AuthMethod{ssh.Password(pass)}, HostKeyCallback: ssh.InsecureIgnoreHostKey(), Timeout: 5 * time.Second}
+	seq := append(append([]string(nil), wrong...), pass)
+	presented := 0
+	auth := ssh.RetryableAuthMethod(ssh.PasswordCallback(func() (string, error) {
+		if presented >= len(seq) {
+			return "", fmt.Errorf("no more passwords")
+		}
+		presented++
+		return seq[presented-1], nil
+	}), len(seq))
+	cc := &ssh.ClientConfig{User: user, Auth: []ssh.AuthMethod{auth}, HostKeyCallback: ssh.InsecureIgnoreHostKey(), Timeout: 5 * time.Second}
 	c, chans, gr, err := ssh.NewClientConn(cli, "lab", cc)
 	accepted := err == nil
 	var got []byte
@@ -242,6 +263,16 @@ func runRelaySSH(user, pass string, reqs []sshReqRec, toBackend, fromBackend []b
 	if len(logins) == 0 || logins[len(logins)-1] != [2]string{user, pass} {
 		viol("credentials-changed", fmt.Sprintf("client presented %q/%q, the backend saw %v", user, pass, logins))
 	}
+	if len(wrong) > 0 {
+		// every attempt of the connection reaches the backend, in order: it alone decides
+		ok := len(logins) == len(seq)
+		for i := range seq {
+			ok = ok && i < len(logins) && logins[i] == [2]string{user, seq[i]}
+		}
+		if !ok {
+			viol("credentials-changed", fmt.Sprintf("client presented %d passwords on one connection, the backend saw %d attempts: %v", len(seq), len(logins), logins))
+		}
+	}
 	if accepted != (pass == good) {
 		viol("login-decision-changed", fmt.Sprintf("backend accepts only %q; the client presenting %q was accepted=%v", good, pass, accepted))
 	}
@@ -291,13 +322,32 @@ func runRelaySSH(user, pass string, reqs []sshReqRec, toBackend, fromBackend []b
 	if _, n := l.decoy.got(); n != 0 {
 		viol("connection-to-other-address", "the decoy listener was connected to")
 	}
-	if pass == good && conns != 1 {
+	// the proxy dials the backend once per password attempt (the attempt is made there)
+	if pass == good && conns != len(seq) {
 		viol("extra-backend-connection", fmt.Sprintf("%d connections to the backend for one client login", conns))
 	}
 	emit(line, fmt.Sprintf("accepted=%v reqs=%d data=%d reply=%d", accepted, len(breqs), len(bdata), len(got)), verdict, accepted)
 }
 
+func genC15SSHTries(tier string, r *Rng) {
+	sstr := func(x string) []byte { return append([]byte{0, 0, 0, byte(len(x))}, x...) }
+	ks := []int{1, 5, 6, 8}
+	if tier == "thorough" {
+		ks = []int{1, 2, 3, 4, 5, 6, 7, 8, 12, 20}
+	}
+	for _, k := range ks {
+		var wrong []string
+		for i := 0; i < k; i++ {
+			wrong = append(wrong, word(r, 8)+"!")
+		}
+		runRelaySSHTries(word(r, 6), wrong, "letmein", []sshReqRec{{"exec", sstr("id")}}, nil, []byte("uid=0(root)\n"))
+	}
+	// all rejected
+	runRelaySSHTries(word(r, 6), []string{"a", "b", "c", "d", "e", "f", "g"}, "h", []sshReqRec{{"shell", nil}}, nil, nil)
+}
+
 func genC15SSH(tier string, r *Rng) {
+	genC15SSHTries(tier, r)
 	n := 10
 	if tier == "thorough" {
 		n = 60
